@@ -53,6 +53,52 @@ def verdict (D : List Dir) (chain chain' : List Dir) (responsesEqual : Bool) : S
   else if !responsesEqual then "bad:responses-differ:some request is answered differently after reordering"
   else "ok"
 
+/-! ### the documented order as classes of directives
+
+Every directive of the standard distribution (in the directive list AND with a registered plugin)
+belongs to exactly one class; the property text's order is a relation between classes. -/
+
+structure DirClass where
+  name : String
+  members : List Dir
+deriving Repr, DecidableEq
+
+/-- site/server settings: their setup adds no request handler, order among handlers is moot -/
+def clsSetup : DirClass := ⟨"setup", ["root", "index", "bind", "timeouts", "tls", "on"]⟩
+/-- per-request preparation that everything else (the access log included) may rely on -/
+def clsPrelude : DirClass := ⟨"prelude", ["limits", "request_id"]⟩
+def clsLogging : DirClass := ⟨"logging", ["log"]⟩
+/-- request rewriting -/
+def clsRewriters : DirClass := ⟨"rewriters", ["tryfiles", "rewrite", "ext"]⟩
+/-- compression, response headers, error pages -/
+def clsWrappers : DirClass := ⟨"wrappers", ["gzip", "header", "errors"]⟩
+/-- authentication, redirects, fixed statuses, internal-only paths -/
+def clsAccess : DirClass := ⟨"access", ["basicauth", "redir", "status", "internal"]⟩
+/-- response metadata chosen from the request path -/
+def clsDecorators : DirClass := ⟨"decorators", ["mime"]⟩
+/-- content handlers -/
+def clsContent : DirClass :=
+  ⟨"content", ["pprof", "expvar", "push", "templates", "proxy", "fastcgi", "websocket", "markdown", "browse"]⟩
+
+def classes : List DirClass :=
+  [clsSetup, clsPrelude, clsLogging, clsRewriters, clsWrappers, clsAccess, clsDecorators, clsContent]
+
+/-- the documented relation: every member of the first class acts before / around every member
+of the second.  (request rewriting before authentication; authentication, redirects and internal
+before every content handler; logging, compression, response headers and error pages around all
+content handlers — and around the access controls, whose answers they must log, compress, decorate
+and turn into error pages; the access log around everything that handles the request.) -/
+def documentedOrder : List (DirClass × DirClass) := [
+  (clsRewriters, clsAccess),
+  (clsAccess, clsContent),
+  (clsWrappers, clsContent),
+  (clsWrappers, clsAccess),
+  (clsLogging, clsRewriters), (clsLogging, clsWrappers), (clsLogging, clsAccess),
+  (clsLogging, clsDecorators), (clsLogging, clsContent),
+  (clsPrelude, clsLogging),
+  (clsDecorators, clsContent)
+]
+
 /-! ### documented pair orders, probed on the running server (stream `c09.pairs`)
 
 Each scenario is a block with one line of an `outer` and one line of an `inner` directive and one
@@ -69,15 +115,31 @@ structure Scenario where
 deriving Repr, DecidableEq
 
 def scenarios : List Scenario := [
+  -- rewriters before access
   ⟨"rewrite-before-basicauth", "rewrite", "basicauth", "401", "200"⟩,
+  ⟨"ext-before-basicauth", "ext", "basicauth", "401", "200"⟩,
+  ⟨"tryfiles-before-basicauth", "tryfiles", "basicauth", "401", "200"⟩,
+  ⟨"rewrite-before-internal", "rewrite", "internal", "404", "200"⟩,
+  -- access before content
   ⟨"basicauth-before-proxy", "basicauth", "proxy", "401", "200"⟩,
   ⟨"redir-before-browse", "redir", "browse", "302", "200"⟩,
+  ⟨"redir-before-proxy", "redir", "proxy", "302", "200"⟩,
+  ⟨"status-before-browse", "status", "browse", "418", "200"⟩,
   ⟨"internal-before-browse", "internal", "browse", "404", "200"⟩,
   ⟨"basicauth-before-markdown", "basicauth", "markdown", "401", "200"⟩,
+  -- wrappers around content / access
   ⟨"header-around-proxy", "header", "proxy", "1", "0"⟩,
   ⟨"errors-around-status", "errors", "status", "1", "0"⟩,
+  ⟨"errors-around-fastcgi", "errors", "fastcgi", "1", "0"⟩,
+  ⟨"gzip-around-proxy", "gzip", "proxy", "1", "0"⟩,
+  -- the access log around everything
   ⟨"log-around-proxy", "log", "proxy", "1", "0"⟩,
-  ⟨"gzip-around-proxy", "gzip", "proxy", "1", "0"⟩
+  ⟨"log-around-rewrite", "log", "rewrite", "1", "0"⟩,
+  ⟨"log-around-basicauth", "log", "basicauth", "1", "0"⟩,
+  ⟨"log-around-redir", "log", "redir", "1", "0"⟩,
+  ⟨"log-around-errors", "log", "errors", "1", "0"⟩,
+  ⟨"log-around-gzip", "log", "gzip", "1", "0"⟩,
+  ⟨"log-around-browse", "log", "browse", "1", "0"⟩
 ]
 
 /-- what the model predicts for a directive list `D`: decided by the two positions alone -/
